@@ -9,7 +9,19 @@ def mixed_init(self, **kwargs):
     import inspect
     new_class = self.__class__
     base_class = self.__class__.__bases__[-1]
-    args = inspect.getfullargspec(base_class.__init__).args[1:]
+    base_spec = inspect.getfullargspec(base_class.__init__)
+    args = base_spec.args[1:]
+
+    # A keyword that neither the base class nor any mixin accepts is an
+    # error, exactly as it is for a class without mixins
+    known = set(args) | set(base_spec.kwonlyargs)
+    for klass in new_class.__bases__[:-1]:
+        known.update(inspect.getfullargspec(klass.__init_mixin__).args[1:])
+    unknown = [k for k in kwargs if k not in known]
+    if unknown and base_spec.varkw is None:
+        raise TypeError('{}() got an unexpected keyword argument '
+                        '\'{}\''.format(new_class.__name__, unknown[0]))
+
     new_kwargs = {}
     for k, v in kwargs.items():
         if k in args:
